@@ -102,7 +102,8 @@ def main():
                 "analysis_error_in": broken,
             }
             if confirmed:
-                d = VERIF / "seeded" / f"{prop}_{k}"
+                off = int(os.environ.get("SEED_OFFSET", "0"))
+                d = VERIF / "seeded" / f"{prop}_{k + off}"
                 d.mkdir(parents=True, exist_ok=True)
                 shutil.copy(patch, d / "patch.diff")
                 (d / "demo.py").write_text(stored_demo)
